@@ -62,6 +62,8 @@ M = {
  "D03_real_send_error_swallowed": ("C20", RL, [("      Err(e) => {\n        Err(format!(\"write() to synthetic keyboard failed with {}\", e))\n      },", "      Err(_) => {\n        Ok(())\n      },")], "RealDriver::send hides write errors"),
  "D04_real_poll_drops_tablet_token": ("C10", RL, [("            TABLET_SWITCH => {\n              res.push(Device::Tablet)\n            },", "            TABLET_SWITCH => {\n            },")], "RealDriver::poll never reports the tablet switch"),
  "D05_real_tablet_read_error_becomes_end": ("C20", RL, [("          Err(e) => Err(format!(\"read() from tablet mode switch failed with {}\", e)),", "          Err(_) => Ok(Next::End),")], "RealDriver::next_tablet turns a read error into a clean end"),
+ "D06_real_keyboard_enodev_becomes_busy": ("C10", RL, [("      Err(Error::Sys(ENODEV)) => Ok(Next::End),\n      Err(e) => Err(format!(\"read() from keyboard failed with {}\", e)),", "      Err(Error::Sys(ENODEV)) => Ok(Next::Busy),\n      Err(e) => Err(format!(\"read() from keyboard failed with {}\", e)),")], "RealDriver::next_keyboard answers Busy to an unplugged keyboard: the loop never stops (system-call seam: read fails with ENODEV)"),
+ "D07_real_keyboard_enodev_is_an_error": ("EQ:C10,C20,C18", RL, [("      Err(Error::Sys(ENODEV)) => Ok(Next::End),\n      Err(e) => Err(format!(\"read() from keyboard failed with {}\", e)),", "      Err(e) => Err(format!(\"read() from keyboard failed with {}\", e)),")], "RealDriver::next_keyboard reports an unplugged keyboard as an error: the loop still stops at once without further writes (no property says the result must be Ok)"),
  # ---------------- byte layer
  "W01_release_written_as_value_2": ("C18", RW, [("        Event::Released(_) => 0\n      };", "        Event::Released(_) => 2\n      };")], "release encoded as auto-repeat"),
  "W02_no_syn_report": ("C18", RW, [("    send_type_code_value(0, 0, 0);\n    \n    write(self.fd", "    \n    write(self.fd")], "batch not terminated by SYN_REPORT"),
